@@ -34,6 +34,15 @@ def hash_seed_for_lane(base: int, lane: int) -> int:
     return 1 + derive(base, f"lane{lane}") % 4096
 
 
+def steps(rng: random.Random, lo: int, hi: int, p_long: float = 0.07, factor: int = 4) -> int:
+    """How many operations a scenario has: lo..hi, and for one scenario in fifteen a long
+    history (up to `factor` times hi) - things that accumulate, fill up or wear out only
+    show after a few dozen operations of one kind on the same object."""
+    if rng.random() < p_long:
+        return rng.randint(hi + 1, hi * factor)
+    return rng.randint(lo, hi)
+
+
 def chance(rng: random.Random, p: float) -> bool:
     return rng.random() < p
 
